@@ -319,6 +319,22 @@ def Package.run (gate : TypeInfo → RustTy → RotoTy → Res) : Package → Li
   | _, [] => []
   | pk, q :: qs => (pk.get gate q).2 :: Package.run gate (pk.get gate q).1 qs
 
+/-! ## Histories of requests in one process
+
+  Besides the package, `get_function` consults one piece of state that outlives
+  the package: the process-wide `TypeRegistry` (`Value::resolve` stores the
+  description of every Rust type it meets, `check_roto_type` looks components
+  up by `TypeId`). The model's `RustTy` *is* the description tree, i.e. the
+  registry's entry for a type is taken to be the structure of that type,
+  whatever the process resolved before (tied to the `resolve` bodies by the
+  translator target `gatereg`, `RotoV.C04Reg.registry_describes_the_type`). So
+  a process is a list of (package, request) and the registry does not appear. -/
+
+/-- the answers to the requests of one process, each made on some package, in order -/
+def processRun (gate : TypeInfo → RustTy → RotoTy → Res) : List (Package × Request) → List GetRes
+  | [] => []
+  | (pk, q) :: rest => (pk.get gate q).2 :: processRun gate rest
+
 /-! ## `force_filtermap_types` -/
 
 /-- What the checker does to the declared signature of a filtermap after type
